@@ -238,9 +238,13 @@ oscore_cbor_get_next_element(const uint8_t **buffer, size_t *buf_len) {
 
 size_t
 oscore_cbor_get_element_size(const uint8_t **buffer, size_t *buf_len) {
-  uint8_t control = get_byte_inc(buffer, buf_len) & 0x1f;
+  uint8_t control;
   size_t size;
 
+  if (*buf_len == 0)
+    /* Truncated: report a size that can never be satisfied */
+    return SIZE_MAX;
+  control = get_byte_inc(buffer, buf_len) & 0x1f;
   if (control < 0x18) {
     size = (uint64_t)control;
   } else {
@@ -248,6 +252,11 @@ oscore_cbor_get_element_size(const uint8_t **buffer, size_t *buf_len) {
     int num = 1 << control;
     size = 0;
     size_t getal;
+    if (*buf_len < (size_t)num) {
+      /* Truncated header: do not read (or count) behind the buffer */
+      *buf_len = 0;
+      return SIZE_MAX;
+    }
     for (int i = 0; i < num; i++) {
       getal = get_byte_inc(buffer, buf_len);
       size = (size << 8) + getal;
